@@ -55,7 +55,7 @@ def main():
             {"name": "vt", "path": "vt/", "serves_properties": [c["property_id"] for c in checks],
              "kind_free_text": "G1: VC generator over the real Python AST -> z3/cvc5 (loop invariants, callee contracts, "
                                "ghost state, typed quantifier pre-instantiation, IEEE arithmetic via bit-precisely proved "
-                               "lemmas); G3: frame/protocol/data-flow contracts by symbolic path enumeration; "
+                               "lemmas); G2: dimensional contracts (homogeneity type check of the real AST, unification constraints discharged by z3) with a homogeneity replay on the real functions; G3: frame/protocol/data-flow contracts by symbolic path enumeration; "
                                "G4 (rt/): replay of counter-models and bounded stand-ins on the real code under /venv"},
         ],
         "checks": checks,
